@@ -144,7 +144,7 @@ def run_C04(w):
     for i, (sh, fk, doc, opt) in enumerate(combos):
         if i % w.nshards != w.shard:
             continue
-        c04_input(w, {'kind': 'sig', 'shape': list(sh), 'fnkind': fk, 'doc': doc, 'opt': opt})
+        w.guard(c04_input, w, {'kind': 'sig', 'shape': list(sh), 'fnkind': fk, 'doc': doc, 'opt': opt})
         w.stats['signatures'] += 1
     # comprehensions, class bodies, modules, nested scopes: from the program corpus
     for inp, c in programs(w, want=('fixed', 'special', 'gen')):
